@@ -196,9 +196,10 @@ func C09Worker(args []string) {
 		return
 	}
 	libText := c09Lib1
-	if args[0] == "lib2" {
+	if strings.HasPrefix(args[0], "lib2") {
 		libText = c09Lib2
 	}
+	fresh := strings.HasSuffix(args[0], "-fresh") // every execution starts from a library nobody has used yet
 	nthreads, _ := strconv.Atoi(args[1])
 	bound, _ := strconv.Atoi(args[2])
 	shard, _ := strconv.Atoi(args[3])
@@ -230,6 +231,12 @@ func C09Worker(args []string) {
 	var obs []c09Obs
 	mkBodies := func() []func(r *sched.Run) {
 		obs = make([]c09Obs, nthreads)
+		lib := lib
+		if fresh {
+			if l2, err := hx.BuildText(libText); err == nil {
+				lib = l2
+			}
+		}
 		se := hx.NewSharedEngine(6, false) // one engine value for all threads of this execution
 		bodies := make([]func(r *sched.Run), nthreads)
 		for t := 0; t < nthreads; t++ {
@@ -314,6 +321,12 @@ func C09Race(args []string) {
 			var se *hx.SharedEngine
 			if it%2 == 1 {
 				se = hx.NewSharedEngine(6, false) // odd iterations: the goroutines share one engine value
+			}
+			if it%4 < 2 {
+				// a FRESH library: the goroutines are the first users of everything the library builds lazily
+				if l2, err := hx.BuildText(c09Lib2); err == nil {
+					lib = l2
+				}
 			}
 			for t := 0; t < n; t++ {
 				wg.Add(1)
@@ -678,7 +691,8 @@ func C09(rep *ev.Reporter, tier string) {
 	}
 	scens := []scen{{"2 threads, 1-rule library, every yield point, <=2 preemptions", "lib1", 2, 2, "fine", 0},
 		{"2 threads, 2-rule library (second rule retracts the first), coarse yield points, <=3 preemptions", "lib2", 2, 3, "coarse", 0},
-		{"2 threads, 2-rule library, every yield point, <=2 preemptions", "lib2", 2, 2, "fine", 0}}
+		{"2 threads, 2-rule library, every yield point, <=2 preemptions", "lib2", 2, 2, "fine", 0},
+		{"2 threads on a library nobody has used yet (fresh per execution), 2-rule library, coarse yield points, <=2 preemptions", "lib2-fresh", 2, 2, "coarse", 0}}
 	if tier == "thorough" {
 		scens = append(scens,
 			scen{"3 threads, 1-rule library, every yield point, <=2 preemptions", "lib1", 3, 2, "fine", 0},
